@@ -94,6 +94,8 @@ def execute(acc, case):
                 acc.inconclusive.append("node did not reach Open in the set-up phase (case %r)" % (case,))
                 return
             sc.read_emitted()
+            # the step budget follows the number of segments the node has to read one by one
+            sc.sched.max_steps = max(sc.sched.max_steps, sc.sched.steps + 400_000 + 600 * len(chunks or []))
             if case.get("recv_cap"):
                 cap = case["recv_cap"]
                 sc.net.read_len = lambda sock, avail, n: min(avail, cap)
